@@ -72,6 +72,29 @@ pub fn ref_func_targets(m: &Module) -> Vec<usize> {
     c.0
 }
 
+/// of the functions some body names by `ref.func`: those that nothing declares any more (no export, no element item, no
+/// global initialiser)
+pub fn undeclared_ref_funcs(m: &Module) -> Vec<usize> {
+    let mut declared: Vec<usize> = vec![];
+    for e in m.exports.iter() {
+        if let ExportItem::Function(f) = e.item {
+            declared.push(f.index());
+        }
+    }
+    for el in m.elements.iter() {
+        match &el.items {
+            ElementItems::Functions(fs) => declared.extend(fs.iter().map(|f| f.index())),
+            ElementItems::Expressions(_, es) => declared.extend(es.iter().filter_map(|e| if let ConstExpr::RefFunc(f) = e { Some(f.index()) } else { None })),
+        }
+    }
+    for g in m.globals.iter() {
+        if let GlobalKind::Local(ConstExpr::RefFunc(f)) = g.kind {
+            declared.push(f.index());
+        }
+    }
+    ref_func_targets(m).into_iter().filter(|f| !declared.contains(f) && m.funcs.iter().any(|g| g.id().index() == *f)).collect()
+}
+
 /// high-water marks of ids per space, so that trailing dead ids stay visible
 #[derive(Default, Clone)]
 pub struct High {
